@@ -245,15 +245,19 @@ def main():
         "setup_cmd": "cd /verif && python3-vt -m fsv.build && python3-vt -m fsv.fuzzrun --build",
         "hooks": {
             "guard": "fselect_verif",
-            "enable": "RUSTFLAGS='--cfg fselect_verif' is passed by fsv.build; no hook exists in /repo (none needed), so the flag is inert",
+            "enable": "RUSTFLAGS='--cfg fselect_verif' is passed by fsv.build (release binary) and by fsv.fuzzrun (cargo fuzz build). One hook: "
+                      "util::error_exit unwinds with a VerifExit payload instead of exiting when the environment variable "
+                      "FSELECT_VERIF_EXIT_UNWINDS is set - only the in-process fuzz target eval_total sets it, so the release binary "
+                      "the process-level checks drive behaves exactly like an unhooked build",
             "baseline_off_cmd": "cd /repo && cargo test --workspace --no-fail-fast --offline",
-            "source_commits": [],
+            "source_commits": ["8ed04a3c660d3505fbf230aaf64714eb73c406de"],
             "add_only": True,
         },
         "engines": [
             {"name": "fuzz", "path": "/verif/fuzz", "serves_properties": ["C10", "C11"],
              "kind_free_text": "cargo-fuzz / libFuzzer targets that #[path]-include /repo/src (parse_total: Parser::parse never panics or "
-                               "hangs; split_invariance: one argument vs split arguments parse identically); fixed -runs campaigns as a "
+                               "hangs; eval_total: function::get_value on arbitrary function words and argument strings returns or rejects cleanly, "
+                               "never panics; split_invariance: one argument vs split arguments parse identically); fixed -runs campaigns as a "
                                "supplement, every artifact re-judged on the real binary before it counts"},
             {"name": "fsv", "path": "/verif/fsv", "serves_properties": sorted(CHECKS),
              "kind_free_text": "Python/Hypothesis property-based testing engine driving the release binary built from "
